@@ -80,6 +80,8 @@ e4db022 C20 C20.pool
 2bd1055 C08 C08.cursorreset
 454c1ef C01 C01.timeunit
 6f1dab0 C03 C03.headercopy
+3f8cad3 C01 C01.unitpair
+cd01177 C01 C01.unitpair
 LIST
 git -C /repo worktree remove --force $WT
 rm -rf /tmp/fixcheck-ev
